@@ -726,28 +726,42 @@ def inline_rule(rep):
         return
     guards = c05.ruletype_guards(meta, adt)
     n = 0
-    for fn in meta.bodies:
-        if not fn["path"].startswith("pest_meta::optimizer::") or fn.get("exp") or "::tests::" in fn["path"]:
-            continue
-        maps = [p for p in fn["params"] if "HashMap<" in str(p.get("ty")) and str(p.get("ty")).rstrip(">").endswith("pest_meta::ast::Expr")]
-        if not maps:
-            continue
-        # helpers (nested in the pass function or next to it) are reached only from the pass's entry point, which
-        # carries the guard: a function taking the map that is called by another function taking the map is a helper
-        host = [g for g in meta.bodies if g is not fn and fn["path"].startswith(g["path"] + "::")]
-        if host:
-            continue
-        called_by = [g for g in meta.bodies if g is not fn and g.get("body") is not None
-                     and g["path"].startswith("pest_meta::optimizer::") and "::tests::" not in g["path"]
-                     and any("HashMap<" in str(p.get("ty")) and str(p.get("ty")).rstrip(">").endswith("pest_meta::ast::Expr")
-                             for p in g["params"])
-                     and any(kind(x) in ("Call", "MethodCall") and callee(x) == fn["path"] for x in walk(g["body"]))]
-        if called_by:
-            continue
+
+    def map_params(f):
+        return [p for p in f["params"] if p.get("k") == "PBind" and "HashMap<" in str(p.get("ty"))
+                and str(p.get("ty")).rstrip(">").endswith("pest_meta::ast::Expr")]
+
+    def module_of(path):
+        return "::".join(path.split("::")[:3])     # pest_meta::optimizer::<pass>
+    cands = [f for f in meta.bodies if f["path"].startswith("pest_meta::optimizer::") and not f.get("exp")
+             and "::tests::" not in f["path"] and f.get("body") is not None and map_params(f)]
+    # consumers: functions that look a rule up in the map themselves
+    consumers = []
+    for f in cands:
+        mids = set(p["id"] for p in map_params(f))
+        if any(kind(x) == "MethodCall" and x["m"] in ("get", "contains_key", "get_key_value") and hirq.local_id(x["recv"]) in mids
+               for x in walk(f["body"])) or any(kind(x) == "Index" and hirq.local_id(x["base"]) in mids for x in walk(f["body"])):
+            consumers.append(f)
+    # the entry point of a consumer: climb to the outermost map-taking caller inside the same pass module
+    entries = {}
+    for f in consumers:
+        cur, seen = f, set()
+        while cur["path"] not in seen:
+            seen.add(cur["path"])
+            ups = [g for g in cands if g is not cur and module_of(g["path"]) == module_of(cur["path"])
+                   and (any(kind(x) in ("Call", "MethodCall") and callee(x) == cur["path"] for x in walk(g["body"]))
+                        or cur["path"].startswith(g["path"] + "::"))]
+            ups = [g for g in ups if g["path"] not in seen]
+            if not ups:
+                break
+            cur = ups[0]
+        entries[cur["path"]] = cur
+    for fn in entries.values():
+        chain = [g for g in cands if module_of(g["path"]) == module_of(fn["path"])]
         n += 1
         short = fn["path"].replace("pest_meta::optimizer::", "")
         mine = [(cnd, ts) for (f, cnd, ts) in guards
-                if f is fn or f["path"].startswith(fn["path"] + "::")]
+                if f is fn or f["path"].startswith(fn["path"] + "::") or any(f is g for g in chain)]
         # the guard must stand between the entry and the helper that consults the map: calls of map-taking helpers in
         # the entry point sit under it (or after its early return) - `ruletype_guards` reports where the rewrite runs
         if not mine:
